@@ -128,7 +128,8 @@ def _apply_filters(r, filters):
     kind = kinds.pop()
     names = [n for _, n in filters]
     # batches: list or tuple (both are Sequence[str]); chosen by the content unless a check asks for one of them
-    ctor = BATCH[-1] if len(BATCH) > 1 else (tuple if sum(map(len, names)) % 2 else list)
+    # (a one-shot iterator is accepted by the builder as well: it iterates its argument exactly once)
+    ctor = BATCH[-1] if len(BATCH) > 1 else (list, tuple, iter)[sum(map(len, names)) % 3]
     arg = names[0] if len(names) == 1 else ctor(names)
     if kind == "name":
         return r.are_named(arg)
